@@ -52,13 +52,34 @@ RE_KINDS = {
 }
 
 
+# ["rx", text, flags]: an arbitrary user-compiled regex, flags = letters of I (IGNORECASE) X (VERBOSE) S (DOTALL) M (MULTILINE).
+# "matches an allowed / forbidden pattern" means: the pattern's OWN compiled object finds a match (p.search(name)).
+FLAGS = {"I": re.IGNORECASE, "X": re.VERBOSE, "S": re.DOTALL, "M": re.MULTILINE}
+_RX = {}
+
+
+def rx(text, flags):
+    k = (text, flags)
+    if k not in _RX:
+        f = 0
+        for c in flags:
+            f |= FLAGS[c]
+        _RX[k] = re.compile(text, f)
+    return _RX[k]
+
+
 def pat_py(p):
+    if p[0] == "rx":
+        return rx(p[1], p[2])
     return p[1] if p[0] == "suf" else RE_KINDS[p[1]][0](p[2])
 
 
-def pat_coq(p):
+def pat_coq(p, names=()):
     if p[0] == "suf":
         return "Suffix %s" % cstr(p[1])
+    if p[0] == "rx":       # opaque predicate for the model: the table of the case's names the pattern itself matches
+        r = rx(p[1], p[2])
+        return "Compiled (re_search (ReTable %s))" % clist([cstr(n) for n in names if r.search(n) is not None])
     return "Compiled (re_search (%s %s))" % (RE_KINDS[p[1]][1], cstr(p[2]))
 
 
@@ -69,12 +90,18 @@ def pat_spec(p, name, dollar=True):
     if p[0] == "suf":
         s = p[1]
         return name.endswith(s) or (dollar and name.endswith("\n") and name[:-1].endswith(s))
+    if p[0] == "rx":
+        return rx(p[1], p[2]).search(name) is not None
     return RE_KINDS[p[1]][2](p[2], name)
 
 
-def cfg_coq(cfg):
+def has_rx(cfg):
+    return any(p[0] == "rx" for k in ("allowed", "forbidden", "deprecated") for p in (cfg.get(k) or []))
+
+
+def cfg_coq(cfg, names=()):
     def f(l):
-        return copt(l, lambda v: clist([pat_coq(p) for p in v]))
+        return copt(l, lambda v: clist([pat_coq(p, names) for p in v]))
     return "{| static_files_allowed := %s; static_files_forbidden := %s; forbidden_static_files := %s |}" % (
         f(cfg.get("allowed")), f(cfg.get("forbidden")), f(cfg.get("deprecated")))
 
@@ -185,7 +212,8 @@ STATS = {"find_calls": 0, "list_calls": 0, "served_requests": 0, "staticfiles_fi
          "newline_names_judged": 0, "newline_names_where_readings_differ": 0, "newline_differ_exposed_by_dollar_on_allowed_side": 0,
          "newline_differ_hidden_by_dollar_on_forbidden_side": 0, "uppercase_backend_names_judged": 0,
          "uppercase_backend_names_exposed_nondefault_config": 0, "uppercase_backend_names_exposed_default_config": 0,
-         "listed_files_shadowed_by_directory_in_dev_server": 0, "directories_returned_by_find": 0}
+         "listed_files_shadowed_by_directory_in_dev_server": 0, "directories_returned_by_find": 0,
+         "configs_with_flagged_or_grouped_regex": 0, "verdicts_depending_on_a_regex_flag": 0}
 _RF = []
 
 
@@ -569,9 +597,28 @@ def oracle(fails, base, case, cfg, lookups, obs, locinfo):
                      % (sv["real"], wantreal), collected=sorted(sv["real"]))
 
 
+def flagless_reading(cfg, name):
+    """Verdict if every user-compiled regex were re-compiled from its .pattern text alone (flags dropped); None if that fails."""
+    def m(p):
+        if p[0] != "rx":
+            return pat_spec(p, name)
+        try:
+            return rx(p[1], "").search(name) is not None
+        except re.error:
+            return None
+    allowed, forb = cfg_effective(cfg)
+    a, f = [m(p) for p in allowed], [m(p) for p in forb]
+    if None in a or None in f:
+        return None
+    return any(a) and not any(f)
+
+
 def corner_stats(cfg, obs, locinfo):
     """Literal-reading corners, reported (never alarmed): trailing newline names, upper-case backend extensions."""
     lset = set(obs["listed"])
+    if has_rx(cfg):
+        for r in obs["locs"]:
+            STATS["verdicts_depending_on_a_regex_flag"] += sum(1 for f in locinfo[r][2] if flagless_reading(cfg, f) != spec_valid(cfg, f))
     for r in obs["locs"]:
         for f in locinfo[r][2]:
             got = (r, f) in lset
@@ -619,6 +666,8 @@ def run_case(base, case, thorough=False):
                 names = [f for r in locs0 for f in locinfo[r][2]]
                 if len(set(names)) != len(names):
                     STATS["layouts_same_name_in_two_dirs"] += 1
+                # every name the model can be asked to judge: "." and the relative names of all directories and files
+                judged = sorted({"."} | {x for r in locs0 for x in locinfo[r][1] + locinfo[r][2]})
             elif obs["locs"] != locs0:
                 fails.append(("c17-locations", "finder.locations changed between two configurations of the same directories: %r then %r"
                               % (locs0, obs["locs"]), {"case": case}))
@@ -643,11 +692,14 @@ def run_case(base, case, thorough=False):
             g = group_by_location(locs0, listed)
             if g is None:
                 g = [("\0list() not grouped by location", "")]
-            fobs.append("(%s, %s, %s)" % (cfg_coq(cfg), clist(["(%s, %s)" % (fres_coq(r1), fares_coq(ra)) for r1, ra in finds]), pairs_coq(g)))
+            ccfg = cfg_coq(cfg, judged)
+            if has_rx(cfg):
+                STATS["configs_with_flagged_or_grouped_regex"] += 1
+            fobs.append("(%s, %s, %s)" % (ccfg, clist(["(%s, %s)" % (fres_coq(r1), fares_coq(ra)) for r1, ra in finds]), pairs_coq(g)))
             sv = obs.get("served")
             if sv is not None:
                 reqs = [(p, r) for p, r in zip(lookups, sv["reqs"]) if r[0] != "skip"]
-                sobs.append("(%s, %s, %s)" % (cfg_coq(cfg), clist(["(%s, %s)" % (bstr(p), sres_coq(r)) for p, r in reqs]), clist([bstr(q) for q in sv["collect"]])))
+                sobs.append("(%s, %s, %s)" % (ccfg, clist(["(%s, %s)" % (bstr(p), sres_coq(r)) for p, r in reqs]), clist([bstr(q) for q in sv["collect"]])))
     finally:
         shutil.rmtree(base, ignore_errors=True)
         shutil.rmtree(base + "_static", ignore_errors=True)
@@ -735,10 +787,10 @@ def run_cases(chk, roots, cases, thorough, jobs=None, offset=0):
         if res["sterm"] is not None:
             sterms.append(res["sterm"])
             smap.append(i)
-    bad = C.coq_eval_cases("C17", "finder", IMPORTS, "finder_case", "check_finder", fterms, shard=max(8, min(40, len(fterms) // (2 * jobs) + 1)))
+    bad = C.coq_eval_cases("C17", "finder", IMPORTS, "finder_case", "check_finder", fterms, shard=max(4, -(-len(fterms) // (4 * jobs))))
     for i in bad[:10]:
         chk.disagree("Finder model != ComponentsFileSystemFinder.find / find(all=True) / list", dict(cases[i], base=os.path.join(roots.base, "%d" % (offset + i))))
-    bad = C.coq_eval_cases("C17", "served", IMPORTS, "served_case", "check_served", sterms, shard=max(8, min(40, len(sterms) // (2 * jobs) + 1)))
+    bad = C.coq_eval_cases("C17", "served", IMPORTS, "served_case", "check_served", sterms, shard=max(4, -(-len(sterms) // (4 * jobs))))
     for i in bad[:10]:
         chk.disagree("Finder model != staticfiles serve view / collectstatic --dry-run", dict(cases[smap[i]], base=os.path.join(roots.base, "%d" % (offset + smap[i]))))
     phase(chk, "F/X model (coqc, vm_compute)", t0, c0)
@@ -752,7 +804,8 @@ FILE_NAMES = ["a.js", "a.min.js", "a.minXjs", "abdxjs.js", "a.d.js", "x.css", "x
               "a.js\n", "a.py\n", "m.py", "m.pyc", "m.PY", "m.py.js", "m.js.py", "t.html", "t.htm", "t.django", "t.dj",
               "t.tpl", "w[1].js", "a+b.css", "a$.js", "a.js$", "(x).ts", "a^b.js", "a|b.js", "q?.js", "st*r.js", "b\\s.js",
               "sp ace.js", "ünï.js", "a.јs", "a.svg", "a.jpeg", "..js", "...", "a..js", "a.js.", "_p.js",
-              "a.min\njs", "{2}.js", "a.tsx", "py", "a.htmlx", "t.HTML", "m.Py", "evil.py\n", "CVS", ".hidden.js"]
+              "a.min\njs", "{2}.js", "a.tsx", "py", "a.htmlx", "t.HTML", "m.Py", "evil.py\n", "CVS", ".hidden.js", "SECRETS.PY", "Logo.PNG",
+              "a.a"]
 DIR_NAMES = ["sub", "d.js", "secret", "_priv", "py", "x.py", "s.min.js", "n\nl", "a b", "...", "a.js.d", "t.html", ".git", "a.js"]
 SUFFIXES = [".js", ".min.js", ".d.js", ".css", "", "js", ".py", ".html", ".j.", "a.js", "/a.js", "s/a.js", "b/a.js", ".js\n", "\n",
             ".JS", "[1].js", "$", ".js$", "+b.css", "\\s.js", ".*", ".", "..", "?.js", "(x).ts", "|b.js", "^b.js", "ï.js",
@@ -763,6 +816,15 @@ COMPILED = [["re", "contains", ".min."], ["re", "starts", "secret/"], ["re", "st
             ["re", "starts", "/tmp"], ["re", "contains", "c17"], ["re", "endsz", ".py"], ["re", "segstart", "sub/"],
             ["re", "starts", "sub"], ["re", "contains", "\n"], ["re", "segstart", "."], ["re", "starts", ".."],
             ["re", "contains", "_private"]]
+
+# user-compiled regexes whose meaning depends on their flags / inline flags / groups (a re-compilation from p.pattern, a joined
+# alternation or a shared group numbering would change the verdict of some generated name)
+RAW = [["rx", r"\.(py|pyc|html)$", "I"], ["rx", r"\.(png|jpe?g|gif|js)$", "I"], ["rx", "\\. (py | pyc | html | tpl) $   # backend code", "X"],
+       ["rx", "\\. ( js | css ) $", "XI"], ["rx", r"\.min.js$", "S"], ["rx", r"^l/", "M"], ["rx", r"\.js$", "M"], ["rx", r"(?i)\.py$", ""],
+       ["rx", r"(?i)\.js$", ""], ["rx", r"(?x) \. css $", ""], ["rx", r"(?s)a.min.js", ""], ["rx", r"(\.)\1js$", ""], ["rx", r"(.)\1", ""],
+       ["rx", r"(?P<d>\.)(?P=d)", ""], ["rx", r"^(a|m)\.(js|py)$", ""], ["rx", r"a|\.py$", ""], ["rx", r"^[a-z]+\.[a-z]+$", "I"],
+       ["rx", r"secret", "I"], ["rx", r"\.(js)\Z", "I"], ["rx", r"ÜNÏ", "I"], ["rx", r"^sub/.+\.js$", "IS"], ["rx", r"(j)(s)$", ""],
+       ["rx", r"(\w)\.\1", "I"]]
 
 WITNESS_CONFIGS = [
     {"allowed": [["suf", ".min.js"]], "forbidden": []},
@@ -779,15 +841,21 @@ WITNESS_CONFIGS = [
     {"allowed": [["suf", ".py"], ["suf", ".js"]], "forbidden": []},
     {"allowed": [["suf", ""]], "forbidden": [["suf", ".py"]]},
     {"allowed": [["suf", ""]], "deprecated": [["suf", ".py"], ["suf", ".html"]]},
+    {"allowed": [["suf", ""]], "forbidden": [["rx", r"\.(py|pyc|html)$", "I"]]},
+    {"allowed": [["rx", r"\.(png|jpe?g|gif|js)$", "I"], ["rx", r"(\.)\1js$", ""]], "forbidden": [["rx", r"(?i)\.py$", ""], ["rx", r"(.)\1", ""]]},
+    {"allowed": [["suf", ".js"], ["suf", ".py"], ["rx", r"\.min.js$", "S"]], "forbidden": [["rx", "\\. (py | pyc | html | tpl) $   # backend code", "X"], ["rx", r"^l/", "M"]]},
 ]
 SIBLING_SUFFIXES = ["_private", "x", ".bak", "2", " copy", "-old"]
 ROOT_NAMES = ["c", "comps", "k.d", "c/sub", "components"]
 
 
 def gen_pat(rng):
-    if rng.random() < 0.75:
+    r = rng.random()
+    if r < 0.7:
         return ["suf", rng.choice(SUFFIXES)]
-    return list(rng.choice(COMPILED))
+    if r < 0.84:
+        return list(rng.choice(COMPILED))
+    return list(rng.choice(RAW))
 
 
 def gen_config(rng):
@@ -1012,7 +1080,7 @@ def run_valid_cases(chk, roots, n_cfg, n_names, follow_up):
                 if v is None or not spec_ok(cfg, nm, v):
                     mism.append((cfg, nm, v, sv))
                 obs.append("(%s, %s)" % (cstr(nm), cbool(not sv if v is None else v)))   # an exception never equals the model
-        terms.append("(%s, %s)" % (cfg_coq(cfg), clist(obs)))
+        terms.append("(%s, %s)" % (cfg_coq(cfg, names), clist(obs)))
         cases.append((cfg, names))
     shutil.rmtree(root, ignore_errors=True)
     t0, c0 = time.time(), cpu_s()
@@ -1062,7 +1130,7 @@ def run_sj_cases(chk, maxlen, nrandom):
         chk.disagree("safe_join/relpath model != django safe_join / os.path.relpath", {"kind": "sj", "root": cases[i][0], "paths": cases[i][1]})
 
 
-N_RANDOM = {"quick": 2400, "thorough": 12000}
+N_RANDOM = {"quick": 2000, "thorough": 12000}
 if os.environ.get("C17_RANDOM"):            # development knob only (mutation experiments on a loaded machine)
     N_RANDOM = {k: int(os.environ["C17_RANDOM"]) for k in N_RANDOM}
 CHUNK = 1500
